@@ -195,7 +195,13 @@ Definition labelmap_read (st : stored) (keys req : list Z) (combine relabel : bo
     else
       (* np.eye(n+1)[flat] needs every value <= n *)
       if existsb (existsb (fun v => zlen req <? v)) pl then Err "IndexError"
-      else Ok (OStack (map (onehot (zlen req) d) pl))).
+      else
+        let oh := map (onehot (zlen req) d) pl in
+        (* a segment requested more than once was remapped to its first position only:
+           out_array[..., first_positions] *)
+        let fp := map (fun s => index_of s req) req in
+        Ok (OStack (if zlist_eqb fp (zrange 0 (zlen req)) then oh
+                    else map (fun chans => map (fun j => nth (Z.to_nat j) chans []) fp) oh))).
 
 (* ------------------------------------------------------------------ *)
 (* BINARY / FRACTIONAL combine loop, one output frame at a time         *)
@@ -420,3 +426,74 @@ Fixpoint insert_pair (p : Z * Z) (l : list (Z * Z)) : list (Z * Z) :=
 Definition sort_pairs (l : list (Z * Z)) : list (Z * Z) := fold_right insert_pair [] l.
 Definition run_tracking (ds : list desc) (q : query) : val :=
   VL (map (fun p => VL [VZ (fst p); VZ (snd p)]) (sort_pairs (get_tracking_ids ds q))).
+
+(* ------------------------------------------------------------------ *)
+(* segment_numbers=None: every entry point substitutes self.segment_numbers *)
+Definition read_default (e : entry) (assert_missing : bool) (st : stored) (keys : list Z) (o : opts)
+  : res (dtype * output) := read e assert_missing st keys (s_segs st) o.
+Definition run_read_default (e : entry) (am : bool) (st : stored) (keys : list Z) (o : opts) : val :=
+  vres (fun r => VL [VS (dtype_name (fst r)); voutput (snd r)]) (read_default e am st keys o).
+
+(* ------------------------------------------------------------------ *)
+(* construction side: Segmentation._check_and_cast_pixel_array for an integer
+   pixel array and segmentation_type LABELMAP, with _combine_segments.
+   A 4-D stack (frames x rows x columns x segments) is given pixel by pixel:
+   one list of per-segment values for every pixel. *)
+Fixpoint zsum (l : list Z) : Z := match l with [] => 0 | x :: r => x + zsum r end.
+(* ndarray.argmax: index of the FIRST maximal entry *)
+Definition argmax (l : list Z) : Z := index_of (list_max l) l.
+(* _combine_segments, one pixel *)
+Definition combine_px (d : dtype) (nseg : Z) (p : list Z) : Z :=
+  if nseg =? 1 then cast d (hd 0 p)
+  else cast d (cast d (argmax p + 1) * cast d (list_max p)).
+
+Definition ctor_labelmap4 (segs : list Z) (d : dtype) (px : list (list Z)) : res (list Z) :=
+  let nseg := zlen segs in
+  if negb (forallb (fun p => zlen p =? nseg) px) then Err "ValueError"     (* shape[-1] != number of segments *)
+  else
+    let mx := list_max (map list_max px) in
+    if 1 <? mx then Err "ValueError"                                       (* must be binary *)
+    else
+      let overlap :=
+        if mx =? 0 then false else if nseg =? 1 then false
+        else existsb (fun p => 1 <? zsum p) px in
+      if overlap then Err "ValueError"                                     (* LABELMAP cannot hold overlaps *)
+      else
+        let comb := map (combine_px d nseg) px in
+        if zlist_eqb segs (zrange 1 (nseg + 1)) then Ok comb
+        else lookup_all (map (cast d) (0 :: segs)) comb.                   (* channel k holds the k-th described number *)
+
+(* 3-D "label map style" input: every value must be 0 or a described number *)
+Definition ctor_labelmap3 (segs : list Z) (d : dtype) (px : list Z) : res (list Z) :=
+  let nseg := zlen segs in
+  let consecutive :=
+    forallb (fun s => memz s segs) (zrange 1 (nseg + 1)) && forallb (fun s => memz s (zrange 1 (nseg + 1))) segs in
+  let undescribed :=
+    if consecutive then nseg <? list_max px
+    else existsb (fun v => negb (memz v (0 :: segs))) px in
+  if undescribed then Err "ValueError" else Ok (map (cast d) px).
+
+Definition run_ctor4 (segs : list Z) (d : dtype) (px : list (list Z)) : val := vres vz_list (ctor_labelmap4 segs d px).
+Definition run_ctor3 (segs : list Z) (d : dtype) (px : list Z) : val := vres vz_list (ctor_labelmap3 segs d px).
+
+(* ------------------------------------------------------------------ *)
+(* get_segment_description, segmented_property_categories / _types      *)
+Definition get_segment_description (ds : list desc) (n : Z) : res desc :=
+  match find (fun d => d_num d =? n) ds with Some d => Ok d | None => Err "IndexError" end.
+(* values in order of first appearance *)
+Fixpoint first_seen (seen l : list Z) : list Z :=
+  match l with
+  | [] => []
+  | x :: r => if memz x seen then first_seen seen r else x :: first_seen (x :: seen) r
+  end.
+Definition non_background (ds : list desc) (bg : option Z) : list desc :=
+  match bg with Some b => filter (fun d => negb (d_num d =? b)) ds | None => ds end.
+Definition property_categories (ds : list desc) (bg : option Z) : list Z :=
+  first_seen [] (map d_cat (non_background ds bg)).
+Definition property_types (ds : list desc) (bg : option Z) : list Z :=
+  first_seen [] (map d_type (non_background ds bg)).
+Definition vdesc (d : desc) : val :=
+  VL [VZ (d_num d); VZ (d_label d); VZ (d_cat d); VZ (d_type d); VZ (d_alg d); vopt VZ (d_tuid d); vopt VZ (d_tid d)].
+Definition run_describe (ds : list desc) (bg : option Z) (ns : list Z) : val :=
+  VL [VL (map (fun n => vres vdesc (get_segment_description ds n)) ns);
+      vz_list (property_categories ds bg); vz_list (property_types ds bg)].
